@@ -460,6 +460,111 @@ fn servers_phase(rep: &mut Report) {
     rep.phase("server variants (Rust API) over loopback aliases", st, json!({"cases": cases.len()}));
 }
 
+/// several peers already waiting in the listener's backlog when the server task starts (the
+/// listener is handed to `create_*`): every one of them is filtered by its own address
+pub async fn run_backlog_case(variant: Variant, peers: &[String]) -> Vec<(String, String)> {
+    let mut problems = vec![];
+    let app = net_app(&[1]);
+    let (listener, addr) = listen("127.0.0.1").await;
+    // the connections complete in the kernel before anybody accepts
+    let mut socks = vec![];
+    for p in peers {
+        match connect_from(p, addr).await {
+            Ok(s) => socks.push(s),
+            Err(e) => return vec![("MACHINERY:connect".into(), format!("{p}: {e}"))],
+        }
+    }
+    let filter = AddressFilter::Exact("127.0.0.1".parse().unwrap());
+    let handle = match variant {
+        Variant::Tcp => {
+            let (h, task) = create_tcp_server_task(8, listener, app.map.clone(), filter, DecodeLevel::nothing());
+            tokio::spawn(task.run());
+            h
+        }
+        Variant::Tls | Variant::TlsAuthz => {
+            let cfg = match TlsServerConfig::new(&cert_path("ca_a"), &cert_path("srv_valid"), &key_path("srv_valid"), None, MinTlsVersion::V1_2, CertificateMode::AuthorityBased) {
+                Ok(c) => c,
+                Err(e) => return vec![("MACHINERY:tls-config".into(), e.to_string())],
+            };
+            let (h, task) = if variant == Variant::TlsAuthz {
+                create_tls_server_task_with_authz(8, listener, app.map.clone(), ReadOnlyAuthorizationHandler::create(), cfg, filter, DecodeLevel::nothing())
+            } else {
+                create_tls_server_task(8, listener, app.map.clone(), cfg, filter, DecodeLevel::nothing())
+            };
+            tokio::spawn(task.run());
+            h
+        }
+    };
+    for (i, (p, tcp)) in peers.iter().zip(socks.into_iter()).enumerate() {
+        let allowed = p == "127.0.0.1";
+        let (served, got): (bool, String) = if variant == Variant::Tcp {
+            let mut tcp = tcp;
+            write_all(&mut tcp, &mbap_frame(0x0B00 + i as u16, 1, &SENTINEL)).await;
+            match read_n(&mut tcp, 13, Duration::from_millis(if allowed { 3000 } else { 600 })).await {
+                ReadOutcome::Bytes(b) => (b[1] == i as u8, hex(&b)),
+                ReadOutcome::Eof(b) | ReadOutcome::Error(_, b) | ReadOutcome::Timeout(b) => (false, hex(&b)),
+            }
+        } else {
+            let connector = tokio_rustls::TlsConnector::from(peer_client_config(PeerVersions::Both, "cli_operator"));
+            let name = tokio_rustls::rustls::pki_types::ServerName::try_from("test.com").unwrap();
+            match tokio::time::timeout(Duration::from_millis(if allowed { 3000 } else { 800 }), connector.connect(name, tcp)).await {
+                Ok(Ok(mut tls)) => {
+                    write_all(&mut tls, &mbap_frame(0x0B00 + i as u16, 1, &SENTINEL)).await;
+                    match read_n(&mut tls, 13, Duration::from_millis(1500)).await {
+                        ReadOutcome::Bytes(b) => (b[1] == i as u8, format!("<handshake> {}", hex(&b))),
+                        _ => (false, "<handshake>".to_string()),
+                    }
+                }
+                Ok(Err(e)) if e.to_string().contains("alert") => (false, format!("<{e}>")),
+                _ => (false, "<nothing>".to_string()),
+            }
+        };
+        if allowed && !served {
+            problems.push(("matching-peer-not-served:backlog".to_string(), format!("connection #{i} from {p} (in the backlog when the server started; all: {peers:?}) was not served: {got}")));
+        }
+        if !allowed && got != "<nothing>" {
+            problems.push((format!("filtered-peer-served:{variant:?}:backlog"), format!("connection #{i} from {p} does not match Exact(127.0.0.1) yet received {got} (connections waiting when the server started: {peers:?})")));
+        }
+    }
+    let _ = tokio::time::timeout(Duration::from_millis(500), handle.shutdown()).await;
+    problems
+}
+
+fn backlog_phase(rep: &mut Report) {
+    let a = "127.0.0.1".to_string();
+    let d = "127.0.0.2".to_string();
+    let e = "127.0.0.3".to_string();
+    let orders: Vec<Vec<String>> = vec![
+        vec![a.clone(), d.clone()],
+        vec![d.clone(), a.clone()],
+        vec![a.clone(), d.clone(), e.clone()],
+        vec![a.clone(), a.clone(), d.clone()],
+        vec![d.clone(), a.clone(), e.clone()],
+        vec![a.clone(), d.clone(), a.clone()],
+        vec![d.clone(), e.clone(), a.clone(), d.clone()],
+    ];
+    let mut st = Stats::default();
+    for variant in [Variant::Tcp, Variant::Tls, Variant::TlsAuthz] {
+        for peers in &orders {
+            let mut r = rt().block_on(run_backlog_case(variant, peers));
+            if !r.is_empty() {
+                let r2 = rt().block_on(run_backlog_case(variant, peers));
+                if r2.is_empty() {
+                    r = r2;
+                }
+            }
+            st.evaluations += 1;
+            st.traces += 1;
+            st.class("server-backlog-burst");
+            st.observe(&(variant, peers, r.len()));
+            for (sig, desc) in r {
+                st.violation(Violation { signature: sig, summary: format!("{variant:?}: {desc}"), replay: json!({"kind": "c16-backlog", "variant": variant, "peers": peers}) });
+            }
+        }
+    }
+    rep.phase("connections already waiting in the backlog when the server task starts", st, json!({"orders": orders.len(), "variants": 3}));
+}
+
 pub fn check_c16(tier: &str) -> i32 {
     let mut rep = Report::new(
         "C16",
@@ -470,8 +575,9 @@ pub fn check_c16(tier: &str) -> i32 {
     parser_phase(&mut rep);
     matcher_phase(&mut rep);
     servers_phase(&mut rep);
+    backlog_phase(&mut rep);
     crate::checks::ffi::c16_ffi_phase(&mut rep);
-    for c in ["parser-accepts", "parser-rejects", "matcher-match", "matcher-no-match", "server-peer-matches", "server-peer-filtered"] {
+    for c in ["parser-accepts", "parser-rejects", "matcher-match", "matcher-no-match", "server-peer-matches", "server-peer-filtered", "server-backlog-burst"] {
         rep.require_class(c);
     }
     rep.exhaustive = true;
@@ -496,6 +602,11 @@ pub fn replay_c16(v: &serde_json::Value) -> Vec<(String, String)> {
             }
         }
         Some("c16-ffi") => crate::checks::ffi::replay_c16_ffi(v),
+        Some("c16-backlog") => {
+            let variant: Variant = serde_json::from_value(v["variant"].clone()).unwrap();
+            let peers: Vec<String> = serde_json::from_value(v["peers"].clone()).unwrap();
+            rt().block_on(run_backlog_case(variant, &peers))
+        }
         _ => {
             let c: ServerCase = serde_json::from_value(v["case"].clone()).unwrap();
             match rt().block_on(run_server_case(&c)) {
